@@ -127,7 +127,8 @@ class World:
     def fresh_field(self, model, cond, mtn, seed, pos, mesh):
         kr = self.krige(cond, model, mtn)
         c = self.gs.CondSRF(kr, seed=seed, mode_no=MODE_NO)
-        return c(pos, mesh_type=mesh)
+        f = c(pos, mesh_type=mesh)
+        return f, dict(raw_krige=c.raw_krige, raw_field=c.raw_field, krige_var=c.krige.krige_var, krige_field=c.krige.field)
 
 
 def mesh_name(m):
@@ -369,18 +370,22 @@ class HistoryRunner:
             # ---- property probe: a freshly built object returns the identical field
             if kind == 2 and not dirty:
                 b, j, m = cur_pos
-                fresh = w.fresh_field(model_now, w.cur_cond, w.cur_mtn, cur_seed, w.pos(b, j, m), mesh_name(m))
+                fresh, fstored = w.fresh_field(model_now, w.cur_cond, w.cur_mtn, cur_seed, w.pos(b, j, m), mesh_name(m))
                 sc = max(1.0, float(np.max(np.abs(fresh))))
                 ctx.count(None)
-                if fresh.shape != out.shape or not np.all(np.abs(fresh - out) <= 1e-12 * sc):
+                stored = dict(raw_krige=csrf.raw_krige, raw_field=csrf.raw_field, krige_var=csrf.krige.krige_var, krige_field=csrf.krige.field)
+                bad_stored = [n for n in stored if np.shape(stored[n]) != np.shape(fstored[n]) or
+                              not np.all(np.abs(np.asarray(stored[n]) - fstored[n]) <= 1e-12 * max(1.0, float(np.max(np.abs(fstored[n])))))]
+                if fresh.shape != out.shape or not np.all(np.abs(fresh - out) <= 1e-12 * sc) or bad_stored:
                     diff = float(np.max(np.abs(fresh - out))) if fresh.shape == out.shape else float("nan")
+                    case["stale_stored_fields"] = bad_stored
                     if jittered:
                         key = "pos-window:np.allclose"
                     else:
                         key = "history:stale-after:" + last_change
                     ctx.violation("probe: call after a history vs freshly built object",
                                   "field returned after op %d (%s, reuse=%s) differs from the field of a freshly built object "
-                                  "(max abs diff %.3g; last change: %s)" % (i, OPN[code], reuse, diff, last_change),
+                                  "(max abs diff %.3g; stored fields that differ: %s; last change: %s)" % (i, OPN[code], reuse, diff, bad_stored, last_change),
                                   dict(case, failed_op=i, max_abs_diff=diff, model=repr(model_now), mtn=mtn_repr(w.cur_mtn),
                                        got=[C.fhex(x) for x in out.ravel()[:40]], fresh=[C.fhex(x) for x in fresh.ravel()[:40]]), key=key)
                     return case
@@ -503,6 +508,61 @@ def honour_probe(ctx, rng, drv, reps):
                                           % (i, float(fld[ix]), float(cv[i]), kv_i, tol_var, dev, tol), dict(case, point=i),
                                           key="honour:%s:%s" % (variant, mcls.__name__))
                             break
+
+
+def honour_geo_probe(ctx, rng, reps):
+    """honour the data on geographic (lat-lon, Yadrenko) and spatio-temporal models"""
+    import gstools as gs
+    eps = np.finfo(float).eps
+    for rep in range(reps):
+        for geo in ("latlon", "temporal", "latlon+temporal"):
+            mcls = [gs.Exponential, gs.Spherical, gs.Gaussian][int(rng.integers(3))]
+            nc = int(rng.integers(3, 6))
+            cv = rng.normal(size=nc) * 2
+            if geo == "latlon":
+                model = mcls(latlon=True, var=float(rng.uniform(0.5, 2)), len_scale=float(rng.uniform(300, 1500)), geo_scale=gs.KM_SCALE)
+                cp = np.vstack([rng.uniform(-70, 70, nc), rng.uniform(-170, 170, nc)])
+                extra = np.vstack([rng.uniform(-80, 80, 5), rng.uniform(-180, 180, 5)])
+            elif geo == "temporal":
+                model = mcls(temporal=True, spatial_dim=2, var=float(rng.uniform(0.5, 2)), len_scale=float(rng.uniform(0.5, 1.2)),
+                             anis=[float(rng.uniform(0.5, 1)), float(rng.uniform(0.3, 1))])
+                cp = rng.uniform(1, 6, size=(3, nc))
+                extra = rng.uniform(0, 7, size=(3, 5))
+            else:
+                model = mcls(latlon=True, temporal=True, var=float(rng.uniform(0.5, 2)), len_scale=float(rng.uniform(300, 1500)),
+                             geo_scale=gs.KM_SCALE, anis=float(rng.uniform(50, 500)))
+                cp = np.vstack([rng.uniform(-70, 70, nc), rng.uniform(-170, 170, nc), rng.uniform(0, 5, nc)])
+                extra = np.vstack([rng.uniform(-80, 80, 5), rng.uniform(-180, 180, 5), rng.uniform(0, 5, 5)])
+            variant = "Simple" if rng.random() < 0.5 else "Ordinary"
+            kr = gs.krige.Simple(model, cp, cv, mean=float(rng.normal())) if variant == "Simple" else gs.krige.Ordinary(model, cp, cv)
+            try:
+                condK = kmat_cond(kr)
+            except Exception:  # noqa
+                condK = float("inf")
+            if not condK < 1e9:
+                ctx.count(None, hist=dict(probe="honour-data:skipped (kriging matrix numerically singular)"))
+                continue
+            pos = np.hstack([cp, extra])
+            seed = int(rng.integers(1, 10 ** 6))
+            case = dict(probe="honour-data-geo", geo=geo, variant=variant, model=repr(model), seed=seed, cond_pos=cp.tolist(),
+                        cond_val=cv.tolist(), kriging_matrix_cond=condK)
+            ctx.count(("honour-geo", geo, variant, mcls.__name__), hist=dict(probe="honour-data-geo", geo=geo, variant=variant))
+            try:
+                csrf = gs.CondSRF(kr, seed=seed, mode_no=64)
+                fld = csrf(pos)
+                kvar, raw = np.asarray(csrf.krige.krige_var), np.asarray(csrf.raw_field)
+            except Exception as e:  # noqa
+                ctx.violation("probe: honour the data (geo)", "exception %r" % (e,), case, key="honour-geo:exception:" + geo)
+                continue
+            scale = 1.0 + float(np.max(np.abs(cv)))
+            for i in range(nc):
+                kv_i = float(kvar[i])
+                dev = abs(float(fld[i]) - cv[i])
+                tol = 1e3 * eps * condK * scale + np.sqrt(max(kv_i, 0.0) / model.var) * abs(float(raw[i])) * (1 + 1e-9)
+                if not (kv_i <= 1e3 * eps * condK * model.sill and dev <= tol):
+                    ctx.violation("probe: honour the data (geo)", "conditioned field at conditioning point %d is %r, datum %r (kriging variance %.3g)"
+                                  % (i, float(fld[i]), float(cv[i]), kv_i), dict(case, point=i), key="honour-geo:%s:%s" % (geo, variant))
+                    break
 
 
 def farfield_probe(ctx, rng, reps):
@@ -643,7 +703,7 @@ def run(ctx, only_history=None):
         "far-field limit as a limit statement: proved are the exact end point (estimate 0, variance = sill) and a quantitative bound for models "
         "without nugget; that simple-kriging weights vanish far from the data is probed only",
         "np.allclose window of Field._pos_equal: C07_cache_coherent assumes positions are identical or not allclose (C07_pos_window_refuted; known finding)",
-        "per-call store/krige_store options, custom field names, direct calls of csrf.krige(...) between CondSRF calls, fit_normalizer/"
+        "per-call store/krige_store options, custom field names, direct calls of csrf.krige(...) or assignments csrf.pos = ... between CondSRF calls, fit_normalizer/"
         "fit_variogram and seed=None are outside the modelled operation alphabet",
         "floating-point rounding (theorems over R; the formula model is executed at doubles bit-for-bit against the implementation)",
     ]
@@ -690,6 +750,7 @@ def run(ctx, only_history=None):
         # ---- probes of the statement
         formula_probe(ctx, rng, drv, tie_broken, 40 if thorough else 8)
         honour_probe(ctx, rng, drv, 8 if thorough else 2)
+        honour_geo_probe(ctx, rng, 6 if thorough else 2)
         farfield_probe(ctx, rng, 10 if thorough else 3)
         window_probe(ctx, rng)
         C.log("[C07]   probes done: %.1fs" % (time.time() - t0))
